@@ -449,6 +449,12 @@ def expanded_test(fi: FuncInfo, node: ast.Assert, depth: int = 6) -> str:
     for n in ast.walk(tree):
         if isinstance(n, ast.Name) and n.id in order:
             n.id = order[n.id]
+    # `a == b` and `b == a` (and the operands of `and` / `or`) are the same condition: one spelling
+    for n in ast.walk(tree):
+        if isinstance(n, ast.Compare) and len(n.ops) == 1 and isinstance(n.ops[0], (ast.Eq, ast.NotEq)):
+            l_, r_ = n.left, n.comparators[0]
+            if not isinstance(r_, ast.Constant) and norm(l_) > norm(r_):
+                n.left, n.comparators = r_, [l_]
     return norm(tree)
 
 
@@ -1296,7 +1302,7 @@ def rule_validator_refuses(ctx: Ctx, rule: str = "validator-types") -> None:
 
         def collect(v):
             if isinstance(v, tuple) and v and v[0] == "call" and v[1] == "isinstance":
-                seen.setdefault(repr((v[2][0], _type_names(v[2][1]))), (v[2][0], _type_names(v[2][1])))
+                seen.setdefault(repr((_no_sites(v[2][0]), _type_names(v[2][1]))), (_no_sites(v[2][0]), _type_names(v[2][1])))
             return None
 
         try:
@@ -1310,7 +1316,7 @@ def rule_validator_refuses(ctx: Ctx, rule: str = "validator-types") -> None:
             construct = "%s: a value failing isinstance(%s, %s) is refused with a documented error" % (fi.name, show_v(subject), "/".join(types) or "?")
 
             def is_target(v, subject=subject, types=types) -> bool:
-                return isinstance(v, tuple) and bool(v) and v[0] == "call" and v[1] == "isinstance" and v[2][0] == subject and _type_names(v[2][1]) == types
+                return isinstance(v, tuple) and bool(v) and v[0] == "call" and v[1] == "isinstance" and _no_sites(v[2][0]) == subject and _type_names(v[2][1]) == types
 
             def assume(v, is_target=is_target):
                 if isinstance(v, tuple) and v and v[0] == "call" and v[1] == "isinstance" and not is_target(v):
@@ -1343,6 +1349,18 @@ def rule_validator_refuses(ctx: Ctx, rule: str = "validator-types") -> None:
             else:
                 ctx.ok(rule, key, construct)
     ctx.floor("kind tests of the validators", total, 5)
+
+
+def _no_sites(v):
+    """A simulated value without the call-site counters (they number the calls met so far on the path, which differs
+    between two simulations that fold different tests)."""
+    if not isinstance(v, tuple) or not v:
+        return v
+    if v[0] in ("call", "new") and len(v) == 5 and isinstance(v[4], int):
+        return (v[0], v[1], _no_sites(v[2]), _no_sites(v[3]), 0)
+    if v[0] == "mcall" and len(v) == 6 and isinstance(v[5], int):
+        return (v[0], v[1], _no_sites(v[2]), _no_sites(v[3]), _no_sites(v[4]), 0)
+    return tuple(_no_sites(x) for x in v)
 
 
 def _type_names(v) -> Tuple[str, ...]:
